@@ -455,6 +455,20 @@ extern "C" int embedded_nul()
       vf_assert(sign(a.compare(b)) == want, "compare == lexicographic order of the byte strings");
       vf_assert((a < b) == (want < 0) && (a > b) == (want > 0), "operator< / operator> agree");
       vf_assert((a == b) == (want == 0), "operator== agrees with compare");
+      // the case-insensitive and the length-limited forms: the same order on (lower-cased) prefixes
+      unsigned len = vf_pick(VF_L + 3);
+      unsigned la = ma.n < len ? ma.n : len, lb = mb.n < len ? mb.n : len;
+      unsigned k = 0; while(k < la && k < lb && ma.v[k] == mb.v[k]) ++k;
+      int wantN = k < la && k < lb ? (ma.v[k] < mb.v[k] ? -1 : 1) : (la < lb ? -1 : la > lb ? 1 : 0);
+      vf_assert(sign(a.compare(b, len)) == wantN, "compare(other, len) == order of the first len bytes");
+      k = 0; while(k < ma.n && k < mb.n && lower(ma.v[k]) == lower(mb.v[k])) ++k;
+      int wantI = k < ma.n && k < mb.n ? (lower(ma.v[k]) < lower(mb.v[k]) ? -1 : 1) : (ma.n < mb.n ? -1 : ma.n > mb.n ? 1 : 0);
+      vf_assert(sign(a.compareIgnoreCase(b)) == wantI, "compareIgnoreCase == order of the lower-cased byte strings");
+      vf_assert(a.equalsIgnoreCase(b) == (wantI == 0), "equalsIgnoreCase agrees");
+      k = 0; while(k < la && k < lb && lower(ma.v[k]) == lower(mb.v[k])) ++k;
+      int wantIN = k < la && k < lb ? (lower(ma.v[k]) < lower(mb.v[k]) ? -1 : 1) : (la < lb ? -1 : la > lb ? 1 : 0);
+      vf_assert(sign(a.compareIgnoreCase(b, len)) == wantIN, "compareIgnoreCase(other, len) == order of the first len lower-cased bytes");
+      vf_assert(a.equalsIgnoreCase(b, len) == (wantIN == 0), "equalsIgnoreCase(other, len) agrees");
     }
     else
     {
